@@ -184,6 +184,20 @@ def one(ctx, rng, xr, frequency, direction, construct_partition):
     if shape == "gaussian":
         fk["gw"] = 0.02
     dk = {"dir": dq, "dm": dm, "dspr": sg}
+    if rng.random() < 0.3:
+        # the other spreading function through the same constructor: frequency-dependent, still normalised per frequency,
+        # so the 2-D spectrum integrates back to the shape and is non-negative
+        try:
+            dka = {"dir": dq, "freq": fq, "dm": dm, "dpm": dm + 4.0, "dspr": sg, "dpspr": sg * 0.9, "fm": fp * 1.1, "fp": fp}
+            S2a = construct_partition(freq_name=fname, dir_name="asymmetric", freq_kwargs=fk, dir_kwargs=dka)
+            e1a = getattr(__import__("wavespectra.construct.frequency", fromlist=[fname]), fname)(**fk)
+            l2a = [d for d in S2a.dims if d not in ("freq", "dir")]
+            o1a = vals(S2a.spec.oned(), l2a + ["freq"])
+            oka = close(o1a, e1a.transpose(*l2a, "freq").values, 1e-12, atol=1e-13 * np.abs(e1a.values).max())[0] and bool(np.all(S2a.values >= 0))
+            (rec.ok("oned_is_shape_asymmetric", key + "|nd=%d" % nd) if oka else
+             rec.bad("oned_is_shape_asymmetric", key, {"nd": nd, "min": float(np.nanmin(S2a.values))}, "2d-spectrum-does-not-integrate-to-shape"))
+        except Exception as ex:
+            rec.bad("oned_is_shape_asymmetric", key, {"raised": repr(ex)[:300]}, "construct-raises")
     try:
         S2 = construct_partition(freq_name=fname, dir_name="cartwright", freq_kwargs=fk, dir_kwargs=dk)
         e1 = getattr(__import__("wavespectra.construct.frequency", fromlist=[fname]), fname)(**fk)
